@@ -22,7 +22,7 @@ from . import c15_values as V
 from .c15_values import M
 
 IMPORTS = ("(import (scheme base) (scheme write) (scheme char) (scheme process-context) "
-           "(rename (only (chibi) equal? bignum? ratio? ratio-numerator ratio-denominator) (equal? core-equal?)) "
+           "(rename (only (chibi) equal? bignum? fixnum? ratio? ratio-numerator ratio-denominator) (equal? core-equal?)) "
            "(only (chibi io) utf8->string!) (only (chibi ast) object-size) (srfi 69) (only (srfi 128) default-hash))")
 
 SPARE = r"""
@@ -41,6 +41,18 @@ SPARE = r"""
           ((vector? x) (let lp ((i 0) (acc 0)) (if (= i (vector-length x)) acc (lp (+ i 1) (+ acc (walk (vector-ref x i) (- d 1)))))))
           ((ra? x) (+ (walk (ra-p x) (- d 1)) (walk (ra-q x) (- d 1))))
           (else 0))))
+;; number of bignum objects inside x whose value fits a fixnum (a non-canonical exact integer)
+(define (%unnorm x)
+  (let walk ((x x) (d 10))
+    (cond ((= d 0) 0)
+          ((bignum? x) (if (fixnum? (+ x 0)) 1 0))
+          ((ratio? x) (+ (walk (ratio-numerator x) (- d 1)) (walk (ratio-denominator x) (- d 1))))
+          ((pair? x) (let lp ((x x) (n 0) (acc 0))
+                       (if (and (pair? x) (< n 40)) (lp (cdr x) (+ n 1) (+ acc (walk (car x) (- d 1)))) (+ acc (walk x (- d 1))))))
+          ((vector? x) (let lp ((i 0) (acc 0)) (if (= i (vector-length x)) acc (lp (+ i 1) (+ acc (walk (vector-ref x i) (- d 1)))))))
+          ((ra? x) (+ (walk (ra-p x) (- d 1)) (walk (ra-q x) (- d 1))))
+          (else 0))))
+(define (%repr x) (+ (%spare x) (* 1000 (%unnorm x))))
 """
 
 HEADER = r"""
@@ -67,7 +79,7 @@ HEADER = r"""
         (map default-hash (vector->list vs))
         (map (lambda (x) (if (string? x) (string-hash x) -1)) (vector->list vs))
         (map (lambda (x) (if (string? x) (string-ci-hash x) -1)) (vector->list vs))
-        (map (if core? %spare (lambda (x) 0)) (vector->list vs))))
+        (map (if core? %repr (lambda (x) 0)) (vector->list vs))))
 """
 
 
@@ -443,6 +455,8 @@ def exotic_of(ma, mb, spare_a=0, spare_b=0):
     tags = sorted(ma.tags | mb.tags)
     if tags:
         return "+".join(tags), "string"
+    if spare_a >= 1000 or spare_b >= 1000:
+        return "unnormalized-fixnum", "bignum"
     if spare_a > 0 or spare_b > 0:
         return "spare-words", "bignum"
     return "plain", toptype(ma) if toptype(ma) == toptype(mb) else "mixed"
@@ -591,7 +605,7 @@ def has_nan_member(m):
 # part (b): table histories
 
 _T_COMMON = ("(import (scheme base) (scheme write) (scheme char) (scheme process-context) "
-             "(rename (only (chibi) equal? bignum? ratio? ratio-numerator ratio-denominator) (equal? core-equal?)) "
+             "(rename (only (chibi) equal? bignum? fixnum? ratio? ratio-numerator ratio-denominator) (equal? core-equal?)) "
              "(only (chibi io) utf8->string!) (only (chibi ast) object-size) ")
 T_IMPORTS69 = _T_COMMON + "(srfi 69))"
 T_IMPORTS125 = _T_COMMON + "(srfi 128) (srfi 125))"
@@ -1052,7 +1066,7 @@ def gen_history(rng, hid, api, nops):
             emit("(hash-table-ref/default %s %s -1)" % (t, kx(k)), "ref/default", k, exp)
     for i in live():
         emit("(%%dump same? K t%d)" % i, "dump", None, dump_expected(keys, tables[i]))
-    steps.insert(0, ("(map %spare (vector->list K))", "spare", None, ("spare",)))
+    steps.insert(0, ("(map %repr (vector->list K))", "spare", None, ("spare",)))
     kvec = "(vector %s)" % " ".join(k.m.expr for k in keys)
     body = "\n ".join("(%%obs %s)" % s[0] for s in steps)
     form = "(%%case* %s (let* ((K %s) (same? %s) (t0 %s) (t1 #f) (t2 #f))\n %s))" % (hid, kvec, same, ctor, body)
@@ -1086,7 +1100,7 @@ def judge_history(rep, h, res):
         if isinstance(sp, int) and sp > 0:
             canon_spare[k.canon] = True
             if k.route == "plain":
-                k.route, k.cls = "spare-words", "bignum"
+                k.route, k.cls = ("unnormalized-fixnum" if sp >= 1000 else "spare-words"), "bignum"
 
     def key_class(key):
         if isinstance(key, list):
